@@ -275,7 +275,21 @@ class Run:
         validated = 0
         states = 0
         t_all = time.time()
-        queue = [pending[i:i + chunk] for i in range(0, len(pending), chunk)]
+        # TLC aborts on behaviours of >= 65536 states once its state queue spills to disk, and a
+        # batch is one behaviour: bound every batch by lines as well (silent steps add depth, so
+        # stay well below the limit).  A single longer trace still goes alone.
+        maxlines = int(os.environ.get("VERIF_BATCH_LINES", "25000"))
+        queue = []
+        cur, curlines = [], 0
+        for ti in pending:
+            n = len(traces[ti])
+            if cur and (len(cur) >= chunk or curlines + n > maxlines):
+                queue.append(cur)
+                cur, curlines = [], 0
+            cur.append(ti)
+            curlines += n
+        if cur:
+            queue.append(cur)
         while queue:
             batch = queue.pop(0)
             if not batch:
